@@ -655,6 +655,28 @@ func runCLI(x *h.Ctx, c Case) string {
 	if m[3] != fmt.Sprint(pe.Position.Column) {
 		return "column shown differs from the parse error's column\n" + describe()
 	}
+	// the file and the line within it, for positions inside a file (a position past the last line -- an
+	// error at the end of the input -- belongs to no file, and what the tool prints then is not judged)
+	if nl := strings.Count(full, "\n"); pe.Position.Line <= nl {
+		wantName, wantLine := "", pe.Position.Line
+		switch mode {
+		case "file":
+			wantName = args[1]
+		case "two-files":
+			first := strings.Count(src[:lineStarts(src)[c.Cut%len(lineStarts(src))]], "\n")
+			if cut := lineStarts(src)[c.Cut%len(lineStarts(src))]; !strings.HasSuffix(src[:cut], "\n") {
+				first++ // the tool terminates every file with a newline (an empty first file is one empty line)
+			}
+			if pe.Position.Line <= first {
+				wantName = args[1]
+			} else {
+				wantName, wantLine = args[3], pe.Position.Line-first
+			}
+		}
+		if wantName != "" && (m[1] != wantName || m[2] != fmt.Sprint(wantLine)) {
+			return fmt.Sprintf("the error is reported at %s:%s, the position %d:%d of the joined source lies at %s:%d\n%s", m[1], m[2], pe.Position.Line, pe.Position.Column, wantName, wantLine, describe())
+		}
+	}
 	srcLines := strings.Split(full, "\n")
 	if pe.Position.Line < 1 || pe.Position.Line > len(srcLines) {
 		return "parse error line outside the source\n" + describe()
